@@ -22,6 +22,7 @@ def parseSMTok (tok : String) : Option Ev := do
         | "q" => some (.request (if (cls.drop 1).toString == "-" then none else (cls.drop 1).toString.toNat?))
         | "C" => some .connect
         | "F" => some .framerInvalid
+        | "V" => some .framerInvalid      -- a pseudo-header VALUE with CR LF / NUL: malformed for the same reason
         | "B" => some .badShape
         | "T" => some (.trailers true)
         | "t" => some (.trailers false)
@@ -59,6 +60,7 @@ def parseSMTok (tok : String) : Option Ev := do
           match f with
           | .pushPromise s _ _ _ => pure (.pushPromise s)
           | .unknown .. => pure .unknown
+          | .windowUpdate s _ inc => pure (.windowUpdate s inc)
           | _ => none
     | _ => none
   | _ => none
@@ -69,7 +71,8 @@ def showReaction : Reaction → String
 /-- a framer-level stream error on a header block (class F) is raised by readMetaFrame, before processFrame -/
 def smRun (toks : List String) : Option String := do
   let maxs ← (← kv toks "maxstreams").toNat?
-  let evs ← ((← kv toks "ev").splitOn ",").mapM parseSMTok
+  -- (M tokens change the CLIENT's encoder only: no frame, no event, no output slot)
+  let evs ← (((← kv toks "ev").splitOn ",").filter (fun t => !t.startsWith "M:")).mapM parseSMTok
   let evs := evs.map fun e => match e with
     | .headers sid _ _ .framerInvalid _ => Ev.readStreamError sid PROTOCOL
     | e => e
@@ -83,7 +86,8 @@ HEADERS / RST_STREAM / WINDOW_UPDATE / PRIORITY on such a stream and answers DAT
 STREAM_CLOSED); everything else follows the model. -/
 def smRunSpec (toks : List String) : Option String := do
   let maxs ← (← kv toks "maxstreams").toNat?
-  let evs ← ((← kv toks "ev").splitOn ",").mapM parseSMTok
+  -- (M tokens change the CLIENT's encoder only: no frame, no event, no output slot)
+  let evs ← (((← kv toks "ev").splitOn ",").filter (fun t => !t.startsWith "M:")).mapM parseSMTok
   let evs := evs.map fun e => match e with
     | .headers sid _ _ .framerInvalid _ => Ev.readStreamError sid PROTOCOL
     | e => e
